@@ -256,6 +256,36 @@ func subCLI(out string, seed uint64, tier string, arg string) {
 		if r.code != 0 || len(got) != 4 || got["info"] != counts["info"] || got["warn"] != counts["warn"] || got["error"] != counts["error"] || got["fatal"] != counts["fatal"] {
 			rep.violate(Violation{"C15", fmt.Sprintf("-summary reports %v, the results contain %v", got, counts), "cli-summary", replayOf(o, map[string]interface{}{"stdout": r.stdout})})
 		}
+		// result sets of a single level (only notices, only warnings, …): select exactly the lints that reported that
+		// level for this object and count again — a summary must not depend on which other levels are present
+		byLevel := map[string][]string{}
+		for n, res := range rs.Results {
+			if res.Status > lint.Pass {
+				byLevel[res.Status.String()] = append(byLevel[res.Status.String()], n)
+			}
+		}
+		for _, lvl := range []string{"info", "warn", "error", "fatal"} {
+			ns := byLevel[lvl]
+			if len(ns) == 0 || len(ns) > 40 {
+				continue
+			}
+			sort.Strings(ns)
+			rl := runCLI(bin, nil, "-summary", "-includeNames", strings.Join(ns, ","), pemF)
+			gl := parseSummary(rl.stdout)
+			rep.Evaluations++
+			rep.distinctKey("summary-level|" + lvl + "|" + o.Name)
+			rep.count("summary-level:" + lvl)
+			for _, l2 := range []string{"info", "warn", "error", "fatal"} {
+				want := 0
+				if l2 == lvl {
+					want = len(ns)
+				}
+				if rl.code != 0 || len(gl) != 4 || gl[l2] != want {
+					rep.violate(Violation{"C15", fmt.Sprintf("-summary over the %d lints that report %s on this object says %v", len(ns), lvl, gl), "cli-summary-level:" + lvl, replayOf(o, map[string]interface{}{"names": ns, "stdout": rl.stdout})})
+					break
+				}
+			}
+		}
 		// both summary flags, two files: each table must be about its own file
 		if i+1 < len(sample) {
 			r = runCLI(bin, nil, "-summary", "-longSummary", pemF, pemF)
